@@ -481,12 +481,14 @@ def shrink(rec, mask, budget=40):
             break
         cands = []
         seen = set()
+        # long lines: fewer candidates per round (each one is evaluated by harness + driver)
+        cap = 400 if len(best["input"]) < 5_000 else (60 if len(best["input"]) < 100_000 else 12)
         for c in shrink_candidates(vs):
             s = show_line(c)
             if s not in seen and s != best["input"]:
                 seen.add(s)
                 cands.append(s)
-            if len(cands) >= 400:
+            if len(cands) >= cap:
                 break
         if not cands:
             break
